@@ -560,7 +560,11 @@ func (m *c20Mon) readerPresent(r *qLogReader, gi int) {
 	if err != nil {
 		wit["case"] = m.c.describe()
 		wit["error"] = c20ErrStr(err)
-		m.rec.violate("reader-seek-present:"+where+":"+pc+":"+c20ErrClass(err),
+		key := "reader-seek-present:" + where + ":" + pc + ":" + c20ErrClass(err)
+		if where == "older-file-below-empty-file" {
+			key = "reader-seek-present:" + where + ":" + c20ErrClass(err)
+		}
+		m.rec.violate(key,
 			fmt.Sprintf("qLogReader.seekTS to the timestamp of a stored entry failed: %v", err), wit)
 		return
 	}
@@ -622,7 +626,22 @@ func (m *c20Mon) readerAbsent(r *qLogReader, a c20Absent) {
 			lo = 0
 		}
 		exp := c20Reversed(m.c.all[lo:a.older])
-		if !m.compare("reader-seek-absent:"+class+":success-but-reads-not-older-than-target",
+		if len(got) > 0 && len(exp) > 0 && got[0] != exp[0].text {
+			where := "elsewhere"
+			for i := a.older; i < len(m.c.all); i++ {
+				if m.c.all[i].text == got[0] {
+					where = "on-an-entry-newer-than-the-target"
+					break
+				}
+			}
+			wit["case"] = m.c.describe()
+			wit["got"] = c20Clip(got[0])
+			wit["expected"] = c20LineInfo(exp[0])
+			m.rec.violate("reader-seek-absent:"+class+":success-but-positioned-"+where,
+				"qLogReader.seekTS to an absent timestamp reported success and the next ReadNext did not return the newest entry older than the target", wit)
+			return
+		}
+		if !m.compare("reader-seek-absent:"+class+":success-but-wrong-reads",
 			op+" returned nil, then ReadNext", got, rerr, exp, len(exp) < 2, wit) {
 			return
 		}
@@ -635,7 +654,11 @@ func (m *c20Mon) readerAbsent(r *qLogReader, a c20Absent) {
 			"qLogReader.seekTS to a timestamp that no entry has reported success", wit)
 	case !c20IsTSClass(ec):
 		wit["case"] = m.c.describe()
-		m.rec.violate("reader-seek-absent:"+class+":unclassified-error:"+ec,
+		key := "reader-seek-absent:" + class + ":unclassified-error:" + ec
+		if m.c.hasEmptyFile() {
+			key = "reader-seek-absent:file-set-with-an-empty-file:unclassified-error:" + ec
+		}
+		m.rec.violate(key,
 			"qLogReader.seekTS to an absent timestamp reported neither not-found nor too-early nor too-late: "+err.Error(), wit)
 	}
 	if m.rng.Intn(3) == 0 && !m.dead {
@@ -1006,8 +1029,8 @@ func TestVerifC20(t *testing.T) {
 		id   int
 	}
 	var jobs []job
-	nMain := verifkit.Pick(150, 3000)
-	nSmall := verifkit.Pick(250, 5000)
+	nMain := verifkit.Pick(400, 4000)
+	nSmall := verifkit.Pick(600, 8000)
 	for i := 0; i < nMain; i++ {
 		jobs = append(jobs, job{"main", i})
 	}
@@ -1015,7 +1038,7 @@ func TestVerifC20(t *testing.T) {
 		jobs = append(jobs, job{"small", i})
 	}
 	maxBytes := verifkit.Pick(4<<20, 10<<20)
-	budget := verifkit.Pick(40, 90)
+	budget := verifkit.Pick(50, 100)
 
 	recs := make([]*c20Rec, len(jobs))
 	var next, hangs int64
@@ -1091,16 +1114,15 @@ func TestVerifC20(t *testing.T) {
 
 	// The run is only worth something if the interesting events happened.
 	need := map[string]int{
-		"window_reloads_inside_a_file":                                       20,
-		"window_start:inside-a-line(line straddles the window edge)":        20,
-		"reader_seek_present:older-file":                                     100,
-		"reads_after_seek_crossing_the_file_boundary":                        10,
-		"reader_seek_absent:between-files->success":                          0, // outcome is the product's; counted below
-		"files_larger_than_one_window":                                       20,
-		"lines_cut_by_an_edge_of_the_first_probe_window":                     50,
-		"file_seek_present:inner-line":                                       1000,
-		"file_seek_present:first-line":                                       50,
-		"file_seek_present:last-line":                                        50,
+		"window_reloads_inside_a_file":                               20,
+		"window_start:inside-a-line(line straddles the window edge)": 20,
+		"reader_seek_present:older-file":                             100,
+		"reads_after_seek_crossing_the_file_boundary":                10,
+		"files_larger_than_one_window":                               20,
+		"lines_cut_by_an_edge_of_the_first_probe_window":             50,
+		"file_seek_present:inner-line":                               1000,
+		"file_seek_present:first-line":                               50,
+		"file_seek_present:last-line":                                50,
 	}
 	if !rep.Violated() {
 		for k, n := range need {
